@@ -116,6 +116,9 @@ func (p *Proj) Q(v *big.Int) int64 {
 	}
 	q, r := new(big.Int).QuoRem(v, p.Scale, new(big.Int))
 	if r.Sign() != 0 || q.CmpAbs(big.NewInt(qlim)) >= 0 {
+		if v.Sign() < 0 {
+			return Bad + 1 // not representable AND negative (the sign is never lost)
+		}
 		return Bad
 	}
 	return q.Int64()
